@@ -109,6 +109,8 @@ func init() {
 				Edits: []Edit{{File: "platform/options.go", Old: "opts[i] = options.WithTermHeight(intVal)", New: "opts[i] = options.WithTermWidth(intVal)"}}},
 			{ID: "C19-platform-truncated-seconds", Desc: "platform readDelay truncated to whole seconds before scaling", Rule: "C19/O7",
 				Edits: []Edit{{File: "platform/options.go", Old: "opts[i] = options.WithReadDelay(\n\t\t\t\ttime.Duration(floatVal * float64(time.Second)),\n\t\t\t)", New: "opts[i] = options.WithReadDelay(time.Duration(floatVal) * time.Second)"}}},
+			{ID: "C19-ctor-resets-zero-delay", Desc: "NewChannel replaces a zero read delay by the default after the options ran", Rule: "C19/O8",
+				Edits: []Edit{{File: "channel/channel.go", Old: "\t\t\t\treturn nil, err\n\t\t\t}\n\t\t}\n\t}\n\n\treturn c, nil\n}", New: "\t\t\t\treturn nil, err\n\t\t\t}\n\t\t}\n\t}\n\n\tif c.ReadDelay <= 0 {\n\t\tc.ReadDelay = DefaultReadDelayMicroSeconds * time.Microsecond\n\t}\n\n\treturn c, nil\n}"}}},
 			{ID: "C19-side-effect", Desc: "telnet transport type also rewrites the failure strings", Rule: "C19/O3",
 				Edits: []Edit{{File: "driver/options/generic.go", Old: "d.TransportType = transportType\n", New: "d.TransportType = transportType\n\t\t\td.FailedWhenContains = nil\n"}}},
 		},
@@ -121,6 +123,7 @@ func runC19(c *Ctx, r *Report) {
 	r.Rule("C19/O4", "every constructor applies the full option list, in order, to every target type, skipping only the ignored sentinel", 10)
 	r.Rule("C19/O5", "options do not read other settings; platform constructor passes platform options first and user options after", 1)
 	r.Rule("C19/O6", "netconf.NewDriver copies every field it re-declares from the generic driver", 3)
+	r.Rule("C19/O8", "behind its apply loop a constructor assigns an option-settable field only to default it while it is still nil", 9)
 	r.Rule("C19/O7", "every platform option name has a case producing the driver option the table names, from a value asserted to a type yaml.v3 can produce", 14)
 
 	infos := checkOptionTable(c, r, "C19", "driver/options", specDriverOptions, nil)
@@ -158,6 +161,7 @@ func runC19(c *Ctx, r *Report) {
 		}
 	}
 	_ = linfos
+	checkNoPostLoopOverride(c, r, infos)
 
 	// targets the options assert
 	targets := map[string]bool{}
